@@ -262,7 +262,7 @@ def space_string(b, prefix, tier):
         for ch in r.chars() { assert!(ch as u32 == code as u32); n += 1; }
         assert!(n == %(c)d);
         std::mem::forget(vm);
-        """ % {"c": c, "arms": arms, "last": codes[-1]}, unwind=c + 4, tier=tier, cost=60, stubs=[("std::string::String::push", "vk_push_small")],
+        """ % {"c": c, "arms": arms, "last": codes[-1]}, unwind=c + 4, tier="thorough", core=False, cost=60, stubs=[("std::string::String::push", "vk_push_small")],   # out of memory at 8 GB even with the push stub (RepeatN)
               bounds="count %d; character codes %s" % (c, ", ".join(map(str, codes))), functions=[FN % "string_fn",
               "rusty_basic::interpreter::built_ins::string_fn::run_with_variant", "rusty_basic::interpreter::built_ins::string_fn::run_with_ascii_code_argument"])
     b.add(rel, prefix + "_string_code_invalid", """
